@@ -416,6 +416,12 @@ def filter_mc_sharemem(filename, step_size, box_size, cores, shape,
             logging.error("Caught keyboard interrupt")
             pool.close()
             exit = True
+        except Exception:
+            # a stripe failed: do not leave the other workers (and the pool's
+            # helper threads) behind, they would block interpreter exit
+            pool.terminate()
+            pool.join()
+            raise
         else:
             pool.close()
             pool.join()
